@@ -83,6 +83,13 @@ func Run(sc *Scenario) *Outcome {
 	horizon := time.Duration(sc.HorizonS) * time.Second
 	start := time.Now()
 	need := time.Duration(2*sc.PeriodMS+12000) * time.Millisecond
+	if sc.ProbePM > 0 {
+		// the probe parks goroutines at log points for up to ProbeMaxMS each; an acknowledgement passes some
+		// twenty of them on its way (target sender, shard manager, receiver, aggregation, upstream send). A
+		// bound that ignores the delays the harness itself injects flagged a final ack that arrived 25.8 s
+		// after the last confirmation (bound 22 s) in a 20x22-shard case with 840 ms parks - a false alarm
+		need += time.Duration(20*sc.ProbeMaxMS) * time.Millisecond
+	}
 	reachedQuiescence := false
 	for time.Since(start) < horizon {
 		time.Sleep(time.Second)
